@@ -10,12 +10,12 @@ import (
 // CollectionAliases names the ring-buffer variables of inmem.ResourceCollection as seen from its
 // methods and from the closures they spawn.
 var CollectionAliases = []Alias{
-	{"*param#0.writePos", "W"}, {"*free:param#0.writePos", "W"},
-	{"*param#0.capacity", "C"}, {"*free:param#0.capacity", "C"},
-	{"*param#0.maxCapacity", "M"}, {"*free:param#0.maxCapacity", "M"},
-	{"*param#0.gap", "G"}, {"*free:param#0.gap", "G"},
-	{"*var:pos", "P"}, {"*free:var:pos", "P"},
-	{"*var:options.TailEvents", "T"}, {"*free:var:options.TailEvents", "T"},
+	{Glob: "*param#0.writePos", Name: "W"}, {Glob: "*free:param#0.writePos", Name: "W"},
+	{Glob: "*param#0.capacity", Name: "C"}, {Glob: "*free:param#0.capacity", Name: "C"},
+	{Glob: "*param#0.maxCapacity", Name: "M"}, {Glob: "*free:param#0.maxCapacity", Name: "M"},
+	{Glob: "*param#0.gap", Name: "G"}, {Glob: "*free:param#0.gap", Name: "G"},
+	{Glob: "*var:pos", Name: "P"}, {Glob: "*free:var:pos", Name: "P"},
+	{Glob: "*var:options.TailEvents", Name: "T"}, {Glob: "*free:var:options.TailEvents", Name: "T"},
 }
 
 const (
